@@ -346,7 +346,10 @@ impl FieldMap {
             )));
         }
         let mut ki: HashMap<config::FieldKey, Field> = HashMap::with_capacity(config_mapping.len());
-        for (&k, pos) in config_mapping {
+        // Sorts the fields, otherwise which invalid field gets reported depends on HashMap iteration order.
+        let mut fields: Vec<(&config::FieldKey, &config::FieldPos)> = config_mapping.iter().collect();
+        fields.sort_unstable_by_key(|(k, _)| **k);
+        for (&k, pos) in fields {
             let field = match &pos {
                 config::FieldPos::Index(i) => Ok(Field::ColumnIndex(i.as_zero_based())),
                 config::FieldPos::Label(label) => hm
